@@ -7,6 +7,7 @@ pub mod c05;
 pub mod c06;
 pub mod c07;
 pub mod c08;
+pub mod c09;
 pub mod c10;
 pub mod c11;
 pub mod c12;
@@ -36,6 +37,7 @@ pub fn scenario_for(pid: &str) -> Option<&'static dyn Scenario> {
         "C06" => &c06::C06,
         "C07" => &c07::C07,
         "C08" => &c08::C08,
+        "C09" => &c09::C09,
         "C10" => &c10::C10,
         "C11" => &c11::C11,
         "C12" => &c12::C12,
